@@ -14,6 +14,7 @@ import (
 
 	"hv/fw"
 	_ "hv/props/c01"
+	_ "hv/props/c02"
 	_ "hv/props/c04"
 	_ "hv/props/c11"
 	_ "hv/props/c05"
